@@ -365,6 +365,8 @@ type ModelFile struct {
 }
 
 type ModelResult struct {
+	text   string // cached Text()
+	cum    []int  // cached cumulative byte length after each line
 	Lines  []ModelLine
 	Exited bool
 	OK     bool   // false: the configuration leaves the model's domain
@@ -372,24 +374,39 @@ type ModelResult struct {
 }
 
 func (m *ModelResult) Text() string {
+	if m.text != "" || len(m.Lines) == 0 {
+		return m.text
+	}
 	var sb strings.Builder
 	for _, l := range m.Lines {
 		sb.WriteString(l.Text)
 		sb.WriteByte('\n')
 	}
-	return sb.String()
+	m.text = sb.String()
+	return m.text
 }
 
 // PrefixLen returns the number of stdout bytes owned by BEGIN rules and by
 // values up to and including (file, val).
 func (m *ModelResult) PrefixLen(file, val int) int {
-	n := 0
-	for _, l := range m.Lines {
-		if l.File < file || (l.File == file && l.Val <= val) {
-			n += len(l.Text) + 1
+	// lines are emitted in (file, value) order: binary search on the cumulative lengths
+	if m.cum == nil {
+		m.cum = make([]int, len(m.Lines)+1)
+		for i, l := range m.Lines {
+			m.cum[i+1] = m.cum[i] + len(l.Text) + 1
 		}
 	}
-	return n
+	lo, hi := 0, len(m.Lines)
+	for lo < hi {
+		mid := (lo + hi) / 2
+		l := m.Lines[mid]
+		if l.File < file || (l.File == file && l.Val <= val) {
+			lo = mid + 1
+		} else {
+			hi = mid
+		}
+	}
+	return m.cum[lo]
 }
 
 type modelExit struct{}
